@@ -1551,6 +1551,9 @@ func main() {
 	// (deploy.go): symbolic links into a release directory that is exchanged, files replaced
 	// by files of the same size and modification time.  Planned here, run beside the others.
 	deploys := planDeploys(run.Seed)
+	// 3e'. directories in which the file of a certificate in use is left with zero length
+	// (zerolen.go); planned after the others so that their certificates stay what they were
+	deploys = append(deploys, planZeroLength(run.Seed)...)
 	// 3f. the listeners of generated command lines through the real makeTLSConfig (deploy.go)
 	var lCases []pcase
 	var lViols []pviol
@@ -1625,6 +1628,8 @@ func main() {
 	for _, c := range lCases {
 		run.Add(c.class, c.term(), c.sample)
 	}
+	// 3g. single calls of the real loadPath on generated directories (zerolen.go)
+	runLoadPathEntries(run, run.Scale(120, 600))
 	run.Finish(preamble, run.Scale(80, 400))
 }
 
